@@ -1277,18 +1277,16 @@ theorem dictRef_noFault (find : V → V → KeyHit × Log) (items result : List 
       rw [hfk] at hk
       cases x <;> simp_all [keyFault, isFault]
 
-theorem checkWithDefault_noFault (d : Arg) (x t0 : V) (cs : List (Cond × Log)) (bad : Bool) :
-    isFault (checkWithDefault d x t0 cs bad).1 = false := by
-  induction cs generalizing bad with
-  | nil => unfold checkWithDefault; cases bad <;> simp [vreject, vpass, isFault]
+theorem checkWithDefault_noFault (d : Arg) (x t0 : V) (cs : List (Cond × Log)) :
+    isFault (checkWithDefault d x t0 cs).1 = false := by
+  induction cs with
+  | nil => unfold checkWithDefault; rfl
   | cons c rest ih =>
     obtain ⟨c, l⟩ := c
     unfold checkWithDefault
     cases c with
-    | holds => exact ih bad
+    | holds => exact ih
     | fails => exact (ofArg_pass d x).2
-    | failsRaw => rfl
-    | raised => exact ih true
 
 theorem checkRef_noFault (ct : ClassTable) (a : CheckArgs) (t : V) (o : CheckObj) (h : checkInit a = .ok o) :
     isFault (checkRef ct a t).1 = false := by
@@ -1296,11 +1294,11 @@ theorem checkRef_noFault (ct : ClassTable) (a : CheckArgs) (t : V) (o : CheckObj
   rw [h]
   simp only
   have go : ∀ x, isFault ((match o.default with
-      | some d => checkWithDefault d x t (checkConds ct o x) false
+      | some d => checkWithDefault d x t (checkConds ct o x)
       | none => checkNoDefault t (checkConds ct o x)) : D).1 = false := by
     intro x
     cases o.default with
-    | some d => exact checkWithDefault_noFault d x t _ false
+    | some d => exact checkWithDefault_noFault d x t _
     | none => simp only [checkNoDefault]; split <;> rfl
   cases o.spec with
   | none => exact go t
